@@ -8,6 +8,7 @@
 #include "sym.h"
 #include "h_schema.h"
 #include "ref_types.h"
+#include "ref_valueclass.h"
 #include "ccl/Strings.hpp"
 #include "h_exprs.h"
 using namespace ccl;
@@ -41,8 +42,14 @@ extern "C" void harness_main() {
       for (size_t i = 0; same && i < args.size(); ++i) same = args[i].name == want.declaredArgs[i].first && args[i].type.ToString() == ref::ToString(want.declaredArgs[i].second);
       sym_assert(same, "declared-arguments");
     }
-    (void)auditor->CheckValue();
-    (void)auditor->GetValueClass();
+    // value-class audit against the rule table of refs/ref_valueclass.h
+    const bool valueOK = auditor->CheckValue();
+    const refvc::Env vcEnv{schema.RSLang().VCContext(), schema.RSLang().ASTContext()};
+    const auto wantClass = refvc::Audit(auditor->AST(), vcEnv);
+    sym_assert(valueOK == wantClass.has_value(), valueOK ? "value-audit-accepts-but-rules-reject" : "value-audit-rejects-but-rules-accept");
+    if (valueOK && wantClass.has_value()) sym_assert(auditor->GetValueClass() == *wantClass, "value-class-per-rules");
+    if (!valueOK) sym_assert(auditor->Errors().HasCriticalErrors(), "value-rejection-has-critical-error");
+    if (!valueOK) sym_reach("value-audit-rejected"); else if (auditor->GetValueClass() == ValueClass::props) sym_reach("property"); else sym_reach("value");
     sym_reach("accepted");
   } else {
     bool critical = false;
